@@ -227,6 +227,7 @@ func (P *Program) modSetOf(fn *ssa.Function) *modSet {
 		return ms
 	}
 	cfg := newRunCfg()
+	cfg.bytesLayer = true // ghost state of hash / cipher objects is part of the frame
 	cfg.fnScope = "fn:" + key
 	// the function's own callees may use their contracts
 	for n := range P.summaries {
@@ -305,7 +306,7 @@ func (ex *Exec) invArgs(f *Frame, act *loopAct, inv *LoopInv, get func(*ssa.Phi)
 		name := p.Name()
 		var v Value
 		found := false
-		for phi := range act.headVals {
+		for phi := range act.entVals {
 			if phi.Comment == name {
 				v, found = get(phi), true
 				break
@@ -336,7 +337,9 @@ func (ex *Exec) evalInv(f *Frame, act *loopAct, inv *LoopInv, reach *Term, get f
 	old := ex.bindAny
 	ex.bindAny = bind
 	ex.specDepth++
+	savedCur := ex.cur
 	v, _ := ex.callFn(inv.Fn, args, reach)
+	ex.cur = savedCur
 	ex.specDepth--
 	ex.bindAny = old
 	t, _ := v.(*Term)
@@ -425,7 +428,9 @@ func (ex *Exec) checkStep(f *Frame, act *loopAct, st *LoopInv, headArgs map[stri
 		args = append(args, v)
 	}
 	ex.specDepth++
+	savedCur := ex.cur
 	v, _ := ex.callFn(st.Fn, args, reach)
+	ex.cur = savedCur
 	ex.specDepth--
 	t, _ := v.(*Term)
 	if t == nil {
